@@ -321,11 +321,12 @@ def execute_run(plan):
         if lg is not None:
             judged = lambda fid: (True if mode != "allow" else allow_verdict(lp.code_objs[fid].co_filename, plan["allow"]) is not None) if fid in lp.code_objs else False  # noqa: E731
             def actually_traced(fid, partner):
-                # can the two copies of a twin be confused on the unchanged tree?
+                # can the two copies of a twin be confused on the unchanged tree? Only through the default
+                # filter's verdict cache (keyed by code equality), i.e. when their own verdicts differ.
                 if mode == "custom":
-                    return fid in adm and partner in adm          # tracer cache only (custom filters are not cached)
+                    return False
                 a, b = verdict_file(lp.code_objs[fid].co_filename), verdict_file(lp.code_objs[partner].co_filename)
-                return True if a != b else bool(a)                 # verdict cache keyed by code equality, or both traced
+                return a != b
 
             actually_traced.takes_pair = True
 
@@ -388,6 +389,7 @@ LAYOUT_FILES = [
     "PROJ/json.py", "PROJ/requests/__init__.py", "LNK_PURE/requests/api.py", "LNK_STD/os.py", "PROJ/vendored/six.py", "PURE/editable/mod.py", "LNK_PROJ/app/main.py",
     "PROJ2/pkg/sub/deep/leaf.py", "PROJ/app/../app/main.py", "PURE/../site-packages/six.py",
     "PROJ/vendored_six.py", "PROJ/app/stdos.py", "PURE/mine_link.py",
+    "PUREX/extra_mod.py", "STDX/dev_mod.py", "PUREX/pkg/__init__.py",
 ]
 SYNTHETIC = ["<string>", "<frozen importlib._bootstrap>", "", "<stdin>", "rel/x.py", "<doctest foo[0]>"]
 LAYOUT_ALLOW = ["pkg", "requests", "six", "app", "leaf", "json", "deep", "main", "nosuch", "numpy", "sub", "CWDNAME"]
@@ -453,7 +455,12 @@ def build_layout(base, plan):
     if plan["std_is_symlink"]:
         std_root = os.path.join(base, "stdlink")
         os.symlink(std, std_root)
-    roots = {"STD": std, "PURE": pure, "PLAT": plat, "PROJ": proj, "PROJ2": proj2,
+    # sibling directories whose names merely *start with* a library root's name (not inside it)
+    purex, stdx = pure + "-extra", std + "-dev"
+    os.makedirs(os.path.join(purex, "pkg"), exist_ok=True)
+    os.makedirs(stdx, exist_ok=True)
+    open(os.path.join(purex, "pkg", "__init__.py"), "w").close()
+    roots = {"STD": std, "PURE": pure, "PLAT": plat, "PROJ": proj, "PROJ2": proj2, "PUREX": purex, "STDX": stdx,
              "LNK_PURE": links["LNK_PURE"][0], "LNK_STD": links["LNK_STD"][0], "LNK_PROJ": links["LNK_PROJ"][0]}
     answers = {"stdlib": std_root + ("/" if plan["trailing_slash"] else ""), "purelib": pure, "platlib": plat}
     return roots, answers, [std, pure, plat]
